@@ -5,6 +5,7 @@ import (
 	"fmt"
 	"strconv"
 	"strings"
+	"sync"
 	"time"
 
 	"github.com/aliyun/alibaba-cloud-sdk-go/services/vpc"
@@ -22,9 +23,18 @@ func init() {
 	}})
 }
 
-type fakeVPC struct{ sw map[string][2]string }
+type fakeVPC struct {
+	sw   map[string][2]string
+	slow time.Duration // a describe call takes this long (concurrent look-ups share one call)
+	mu   sync.Mutex
+}
 
 func (f *fakeVPC) DescribeVSwitchByID(ctx context.Context, id string) (*vpc.VSwitch, error) {
+	if f.slow > 0 {
+		time.Sleep(f.slow)
+	}
+	f.mu.Lock()
+	defer f.mu.Unlock()
 	v, ok := f.sw[id]
 	if !ok {
 		return nil, fmt.Errorf("not found %s", id)
@@ -153,6 +163,45 @@ func c17Exec(c *Ctx, ops []string) []string {
 				}
 				s.hold(sw)
 				return swStr(sw)
+			case "vsw.getpar":
+				// n concurrent look-ups of one id: they share one describe call; afterwards the entry is cached like after a
+				// single look-up (so that reporting the vSwitch exhausted takes effect)
+				if len(f) != 3 {
+					return "bad-op"
+				}
+				n, err := strconv.Atoi(f[2])
+				if err != nil || n < 1 || n > 8 {
+					return "bad-op"
+				}
+				_, wasCached := s.pool.GetByID(ctx, &fakeVPC{sw: map[string][2]string{}}, f[1])
+				s.cloud.slow = 25 * time.Millisecond
+				res := make([]string, n)
+				var wg sync.WaitGroup
+				for k := 0; k < n; k++ {
+					wg.Add(1)
+					go func(k int) {
+						defer wg.Done()
+						sw, err := s.pool.GetByID(ctx, s.cloud, f[1])
+						if err != nil {
+							res[k] = "err"
+							return
+						}
+						res[k] = swStr(sw)
+					}(k)
+				}
+				wg.Wait()
+				s.cloud.slow = 0
+				for _, x := range res[1:] {
+					if x != res[0] {
+						return "differ"
+					}
+				}
+				if res[0] != "err" {
+					if _, err := s.pool.GetByID(ctx, &fakeVPC{sw: map[string][2]string{}}, f[1]); err != nil {
+						c.Violate("C17/cache/not-filled-after-shared-lookup", fmt.Sprintf("%d concurrent look-ups of %s succeeded (entry cached before: %v) but the entry is not cached afterwards: reporting it exhausted (Block) has no effect and it is chosen again", n, f[1], wasCached == nil), trace...)
+					}
+				}
+				return res[0]
 			case "vsw.block":
 				// was the entry cached (only then Block has an effect)?  A lookup with an empty cloud tells.
 				if _, err := s.pool.GetByID(ctx, &fakeVPC{sw: map[string][2]string{}}, f[1]); err == nil {
@@ -263,7 +312,12 @@ func c17Run(c *Ctx) {
 			case x < 60:
 				id := Pick(r, known)
 				if r.Chance(70) {
-					ops = append(ops, "vsw.get "+id)
+					if r.Chance(25) {
+						ops = append(ops, fmt.Sprintf("vsw.getpar %s %d", id, 2+r.Intn(3))) // concurrent selections look the same id up
+						c.Count("concurrent-lookup")
+					} else {
+						ops = append(ops, "vsw.get "+id)
+					}
 				}
 				ops = append(ops, "vsw.block "+id)
 				blocks++
